@@ -120,7 +120,7 @@ def run(ctx):
     if not q:
         h6 = emit(ctx, "XHop", "XHop_emit_thorough.cfg")
         deep = len(h6)
-        hall6 = [json.loads(x) for x in rng.sample(h6, min(len(h6), 6000))]
+        hall6 = [json.loads(x) for x in rng.sample(h6, min(len(h6), 3000))]
     if q:
         # classes that are always represented (VERIF_SEED sample of each), plus a sample of the rest:
         #  A colliding id meets a proxy-made error reply or a late/duplicate answer;  B an answer races the end of its request;
@@ -156,7 +156,7 @@ def run(ctx):
     binary = vlib.go_build("c02")
     ttraces, tres = run_shards(ctx, binary, "table", 2 if q else 6, ["-cases", tpath], 900)
     htraces, hres = run_shards(ctx, binary, "hop", 12 if q else 14, ["-cases", hpath], 1700)
-    straces, sres = run_shards(ctx, binary, "storm", 4 if q else 12, ["-rounds", "25" if q else "150"], 1700)
+    straces, sres = run_shards(ctx, binary, "storm", 4 if q else 12, ["-rounds", "25" if q else "120"], 1700)
     ptraces, pres = run_shards(ctx, binary, "h1", 2 if q else 6, ["-rounds", "12" if q else "80"], 1700)
 
     jobs = [("table", "XStreamConnTrace", t, "tnew") for t in ttraces] + \
@@ -208,7 +208,7 @@ def run(ctx):
     ctx.cov["distinct_nontrivial"] = len(tcases) + len([c for c in hcases if features(c)])
     ctx.cov["exhaustive"] = not q
     ctx.cov["rule"] = ("table: every history of <=%d ops (new/resp for any waiter's latest id/ghost id/reset/connreset) over 3 waiters, id counter "
-                       "seeded at 2^32-2, replayed into the real bolt client stream connection; hop: every schedule of 5 steps (thorough: plus a VERIF_SEED sample of 6000 of the 6-step schedules) over 3 requests "
+                       "seeded at 2^32-2, replayed into the real bolt client stream connection; hop: every schedule of 5 steps (thorough: plus a VERIF_SEED sample of 3000 of the 6-step schedules) over 3 requests "
                        "on <=2 downstream connections (send with fresh or colliding id and long or short timeout / ans / dup / ghost / tmo / race, racegone = answer held in its handler while the timeout / the client's disconnect ends the request / inter = answer A decoded, answer B read and delivered on the same upstream connection, then A encoded / uerr = the upstream answers the current attempt with an error status and a body, which a retry_on route retries / close), "
                        "each on the plain route, on the route that adds headers both ways (proxy re-encodes from fields) and on the retry_on route "
                        "from XHop.tla (%d), quick = VERIF_SEED samples of the collision+timeout+late/dup, answer-races-end and decode/read/encode classes and of the rest; storm: VERIF_SEED-randomised "
